@@ -252,6 +252,62 @@ def answerPolRpc (pre post : List String) : String :=
       else "ok arm=" ++ arm
   | _, _ => "bad-case polrpc-arity"
 
+
+def showExposure : Exposure → String
+  | .noListener => "none" | .ownHost => "own" | .clusterHost => "cluster" | .unknown => "unknown"
+
+def showRHost : RHost → String
+  | .none => "nil" | .cluster => "cluster" | .other => "other"
+
+/-- `dmn <svc|follow> <raft|crdt> <addr 0|1> <auth 0|1> <listed 0|1> => <ctor> <host> <listener none|own|cluster> <noproto | http status>` -/
+def answerDmn (pre post : List String) : String :=
+  match pre, post with
+  | [d, m, addr, auth, listed], [ctor, host, listener, status] =>
+    match (do
+      let dir ← if d == "svc" then some serviceDir else if d == "follow" then some followDir else none
+      let m ← if m == "raft" then some Mode.raft else if m == "crdt" then some Mode.crdt else none
+      let addr ← bool01 addr; let auth ← bool01 auth; let listed ← bool01 listed
+      pure (dir, m, addr, auth, listed)) with
+    | none => "bad-case dmn-parse"
+    | some (dir, m, addr, auth, listed) =>
+      let i : DmnInput := { dir := dir, mode := m, addr := addr, auth := auth, listed := listed }
+      let served := match status.toNat? with | some c => 200 ≤ c && c < 300 | none => false
+      let e := modelExposure i
+      let site := restSiteFor Gen.daemonShape dir (modeKey m)
+      let expSite := match site with
+        | some s => s.ctor ++ " " ++ showRHost s.host
+        | none => "? ?"
+      let expStatus := if e == .clusterHost then (if auth then "401" else "2xx") else "noproto"
+      let statusOk := if expStatus == "2xx" then served else status == expStatus
+      let arm := "dmn-" ++ d ++ "-" ++ modeKey m ++ "-" ++ showExposure e ++ (if auth then "+auth" else "")
+      let failed := failedNames (dmnClauses i served)
+      if !failed.isEmpty then "propfail " ++ ",".intercalate failed ++ " arm=" ++ arm
+      else if ctor ++ " " ++ host != expSite || listener != showExposure e || !statusOk then
+        "diff arm=" ++ arm ++ " model=" ++ expSite ++ " " ++ showExposure e ++ " " ++ expStatus
+      else "ok arm=" ++ arm ++ (if i.callerTrusted then " trivial" else "")
+  | _, _ => "bad-case dmn-arity"
+
+def parseCall (s : String) : Option (String × String) :=
+  match s.splitOn "." with
+  | [a, b] => some (a, b)
+  | _ => none
+
+/-- `hs <raft|crdt> <caller> => <component.method,… | ->`: what the components behind the real server recorded while an
+    untrusted remote peer called Cluster.Version, Cluster.ID, Cluster.PeerAdd with decodable arguments -/
+def answerHs (pre post : List String) : String :=
+  match pre, post with
+  | [_, _], [calls] =>
+    match listOf parseCall calls with
+    | none => "bad-case hs-parse"
+    | some calls =>
+      let expected := (Gen.openReach.map (·.calls)).flatten
+      let failed := failedNames (hsClauses calls)
+      if !failed.isEmpty then "propfail " ++ ",".intercalate failed ++ " arm=hs"
+      else if !(calls.all expected.contains) then
+        "diff arm=hs model=subset-of-" ++ ",".intercalate (expected.map (fun c => c.1 ++ "." ++ c.2))
+      else "ok arm=hs" ++ (if calls.isEmpty then "-empty trivial" else "")
+  | _, _ => "bad-case hs-arity"
+
 /-- answer for one case line (tokens after the leading "C07") -/
 def answer (ws : List String) : String :=
   match ws with
@@ -266,6 +322,8 @@ def answer (ws : List String) : String :=
       else if kind == "cfg" then answerCfg pre post
       else if kind == "pol" then answerPol pre post
       else if kind == "polrpc" then answerPolRpc pre post
+      else if kind == "dmn" then answerDmn pre post
+      else if kind == "hs" then answerHs pre post
       else "bad-case unknown-kind"
   | [] => "bad-case empty"
 
